@@ -1125,7 +1125,7 @@ def runOcfr : P String := do
       | _ => false)
     -- up to and including the first error
     let upToErr := fun (ks : List String) => ks.takeWhile (· != "e") ++ (if ks.contains "e" then ["e"] else [])
-    let d19shape : Bool := kind == "flip" && (match keys with
+    let d19shape : Bool := (kind == "flip" || kind == "trunc") && (match keys with
       | [] => false
       | k :: rest => k.contains "e" && rest.all (fun k' => upToErr k' == upToErr k))
     let known := expected.length = origs.length
@@ -1139,8 +1139,10 @@ def runOcfr : P String := do
         -- a run of datum errors only: the corrupted object count claims more objects than the
         -- block holds and each further call reports one more error (finding D27)
         (if kind == "flip" && keys.all (fun k => isInit k || k.getLast? == some "eof" ||
-              ((k.reverse.take 100).all (· == "e") && k.length ≥ 100)) then
-          "VIOLATION D27-shape corrupted object count: one datum error per claimed object, no end of stream within 400 calls"
+              (k.length ≥ 100 && (match k.reverse with
+                | [] => false
+                | last :: rest => (rest.take 99).all (· == last)))) then
+          "VIOLATION D27-shape corrupted object count: one datum error (or one zero-size value) per claimed object, no end of stream within 400 calls"
         else "VIOLATION the reader does not reach end of stream (endless yields)")
       else if !c11 then
         (if d19shape then "VIOLATION D19-shape corrupted block: outcomes agree up to the first error, then the slice back-end (recoverable datum error) carries on while a reader (I/O error at end of input) stops"
